@@ -334,10 +334,16 @@ def check_dense(ctx):
         # open/closed adjustment: +1 on the start iff the interval is open on the left,
         # +1 on the end iff it is closed on the right (decided per path from the branch facts)
         start_open = end_closed = None
+        from .common import flatten as _flatten
+
         for c, v in p.facts:
-            if c.t[0] == "opq" and "closed" in c.key:
-                # a membership test of `closed` in a two-element list: the list or its complement
-                words = {w for w in ("left", "right", "both", "neither") if f"'{w}'" in c.key or f'"{w}"' in c.key or f"({w}" in c.key or f",{w}" in c.key or f" {w}" in c.key or w in c.key.replace("closed", "")}
+            # a membership test of `closed` in a two-element list, or a disjunction of two equality tests of it
+            # (`closed == "neither" or closed == "right"`): the set of words tested
+            parts_ = _flatten(c, "or") if c.t[0] == "or" else [c]
+            if all(q.t[0] == "opq" and "closed" in q.key for q in parts_):
+                words = set()
+                for q in parts_:
+                    words |= {w for w in ("left", "right", "both", "neither") if f"'{w}'" in q.key or f'"{w}"' in q.key or f"({w}" in q.key or f",{w}" in q.key or f" {w}" in q.key or w in q.key.replace("closed", "")}
                 if words == {"neither", "right"}:
                     start_open = v
                 elif words == {"left", "both"}:
@@ -346,6 +352,11 @@ def check_dense(ctx):
                     end_closed = v
                 elif words == {"left", "neither"}:
                     end_closed = not v
+        if (start_open is None or end_closed is None) and ok and ("Add(" in lo_k or "Add(" in hi_k or start_open is None and end_closed is None):
+            # how the open / closed ends are told apart was not read off the branch conditions of this path
+            ctx.undecided(rule, "store|index", s.loc(), "the adjustment of the interval ends for open / closed sides is decided by a test that is not recognised", found=f"[{lo_k[:70]} : {hi_k[:70]}] with start_open={start_open} end_closed={end_closed}")
+            first = False
+            continue
         want_lo, want_hi = (1 if start_open else 0), (1 if end_closed else 0)
         ok = ok and lo_k.count("Add(") == want_lo and hi_k.count("Add(") == want_hi
         # the adjustment is by exactly one position
